@@ -70,7 +70,12 @@ class _LoadRaises:
 
 def gen_bad(rng, host_id, sids):
     """Returns (class, raw message)."""
-    k = rng.randrange(13)
+    k = rng.randrange(14)
+    if k == 13:
+        # nothing at all: what a backend hands over for an empty payload
+        v = rng.choice([b'', '', None, {}, [], 0, pickle.dumps(None),
+                        pickle.dumps({}), '""', '{}', 'null'])
+        return 'empty_' + type(v).__name__, v
     if k == 12:
         fn = rng.choice([_raise_exit, _raise_kill, _raise_cancelled,
                          _raise_value_error])
@@ -229,9 +234,35 @@ class HostCase:
         r.drain = None
         for t in r.T.values():
             t.drain()
-        form = self.rng.choice(['pickle', 'pickle', 'json', 'dict'])
-        self.push(pickle.dumps(msg) if form == 'pickle' else (
-            json.dumps(msg) if form == 'json' else dict(msg)))
+        form = self.rng.choice(['pickle', 'pickle', 'json', 'dict',
+                                'second_manager'])
+        if form == 'second_manager':
+            # published by another manager object of the same class in this
+            # very process (a write-only emitter next to the server): it is
+            # another host, its messages are not echoes of this one
+            if getattr(self, 'emitter', None) is None:
+                self.emitter = (PM.make_async_manager if self.kind == 'async'
+                                else PM.make_sync_manager)(self.chan,
+                                                           write_only=True)
+            n0 = len(self.chan.log)
+            if self.kind == 'async':
+                r.d.run(self.emitter.emit('sentinel', self.tok, namespace=ns,
+                                          room=sid))
+            else:
+                self.emitter.emit('sentinel', self.tok, namespace=ns,
+                                  room=sid)
+            raws = self.chan.log[n0:]
+            # (the channel has queued it for the server: handed over below)
+            for hst in self.chan.hosts:
+                del hst.pending[:]
+            if len(raws) != 1:
+                self.fail('%s: a write-only manager published %d messages '
+                          'for one emit' % (where, len(raws)))
+                return False
+            self.push(raws[0])
+        else:
+            self.push(pickle.dumps(msg) if form == 'pickle' else (
+                json.dumps(msg) if form == 'json' else dict(msg)))
         if self.listener_dead:
             self.fail('%s: the listener stopped' % where)
             return False
@@ -1047,6 +1078,7 @@ def run(ctx):
     ctx.require('listen_restarts', 5)
     ctx.require('redis_cases', 20)
     ctx.require('remote_callback_ids_checked', 10)
+    ctx.require('sentinel_as_second_manager', 20)
     ctx.require('callbacks_that_use_the_server_again', 10)
     ctx.require('callback_messages_not_naming_this_server', 20)
     k = 0
